@@ -20,7 +20,14 @@ Inductive case :=
    constructor); impl = the merged ledger, read when every goroutine had come to rest, each event
    with the session it belongs to; free: 1 = a Lock after everything had ended succeeded within its
    deadline, 3 = it did not (the mutex was leaked) *)
-| Contention (ss : list (kind * outcome)) (impl : list (nat * ev)) (free : nat).
+| Contention (ss : list (kind * outcome)) (impl : list (nat * ev)) (free : nat)
+(* the REAL keyshare.ECDSAKeyshareStore / FrostKeyshareStore (frost) object under contention, in a
+   child process: [workers] goroutines x [pairs] balanced LockKeyshare / UnlockKeyshare pairs with a
+   non-atomic increment of a shared counter inside; dones = pairs completed per worker (a stall
+   detector ends the run when nobody makes progress any more), counter = its final value, free: 1 =
+   a Lock after everything had ended succeeded within its deadline, 2 = the child died with
+   "unlock of unlocked mutex", 3 = the workers stalled / the final Lock did not succeed *)
+| StoreStress (frost : bool) (workers pairs : N) (dones : list N) (counter : N) (free : nat).
 
 Definition ev_eqb (a b : ev) : bool :=
   match a, b with
@@ -49,6 +56,9 @@ Definition agree (c : case) : bool :=
       (* whatever the interleaving was: every session's own part of the ledger is the model's *)
       all_feasible ss && threads_agree 0 ss impl
       && forallb (fun x => Nat.ltb (fst x) (length ss)) impl
+  | StoreStress _ workers pairs dones counter free =>
+      (* the model (C10_store_stress): every worker finishes, the counter is workers * pairs *)
+      stress_ok workers pairs dones counter free
   end.
 
 Definition judge (c : case) : bool :=
@@ -56,6 +66,7 @@ Definition judge (c : case) : bool :=
   | Session k o sh impl real => session_ok k impl && Nat.leb real 1
   | Sequence ss impl real => sequence_ok impl && Nat.leb real 1
   | Contention ss impl free => contention_ok ss impl && Nat.leb free 1
+  | StoreStress _ workers pairs dones counter free => stress_ok workers pairs dones counter free
   end.
 
 Definition kind_ix (k : kind) : N :=
@@ -64,15 +75,16 @@ Definition kind_ix (k : kind) : N :=
 Definition outcome_ix (o : outcome) : N :=
   match o with NeverSilent => 0 | NeverTimeout => 1 | NeverCancelled => 2 | StartMalformed => 3
              | ParamsRejected => 4 | RanFailed => 5 | RanSucceeded => 6 | Refused => 7
-             | ConstructorFails => 8 | Rerun => 9 end.
+             | ConstructorFails => 8 | Rerun => 9 | CancelledBeforeEntry => 10 end.
 Definition share_ix (sh : share) : N :=
   match sh with Readable => 0 | Missing => 1 | Corrupt => 2 | Unreadable => 3 end.
 
 Definition tag (c : case) : N :=
   match c with
-  | Session k o sh _ _ => (kind_ix k * 10 + outcome_ix o + 100 * share_ix sh)%N
+  | Session k o sh _ _ => (kind_ix k * 12 + outcome_ix o + 100 * share_ix sh)%N
   | Sequence _ _ _ => 1000%N
   | Contention _ _ _ => 2000%N
+  | StoreStress frost _ _ _ _ _ => if frost then 3001%N else 3000%N
   end.
 
 Definition check_all := check_cases agree judge tag.
